@@ -199,6 +199,170 @@ def _new_shape_oracle(rng, n):
     return dict(hist), failures
 
 
+# ------------------------------------------------------------------ number defaults under another number type
+# The classes default-type-mismatch (parameters) and return-default-not-code (return entry) were recorded for what the
+# unchanged tree does to an explicit number default under one of the bare scalar types int / float / bool when its Python
+# type is another one: param2ast writes `default or <zero value of the type>`, so a FALSY default (0, 0.0, -0.0, False)
+# comes back as the zero value of the declared type and every other default comes back as it is, value and Python type.
+# That is what these classes absorb for such an entry; a default that comes back differently is a different failure.
+NUMBER_ZERO = {"int": 0, "float": 0.0, "bool": False}
+MISMATCH_CLASSES = {"default-type-mismatch": "param", "return-default-not-code": "return"}
+
+
+def _is_number(v):
+    return isinstance(v, (bool, int, float))
+
+
+def number_mismatch_entries(ir):
+    """names (`return_type` for the return entry) of the entries typed int / float / bool whose explicit default is a number
+    of a different Python type"""
+    out = []
+    for n, q in list((ir.get("params") or {}).items()) + [("return_type", _entry(ir, "return_type"))]:
+        if q and q.get("typ") in NUMBER_ZERO and "default" in q and _is_number(q["default"]) \
+                and type(q["default"]) is not type(NUMBER_ZERO[q["typ"]]):
+            out.append(n)
+    return out
+
+
+def number_default_expected(q):
+    """what the recorded classes say comes back for the default of such an entry"""
+    return q["default"] if q["default"] else NUMBER_ZERO[q["typ"]]
+
+
+def _own_class(ir, opts, names):
+    """the class the classifier gives each named entry when it stands alone (same summary, same options)"""
+    from common import Sym, dumps, loads, run_model, unhx
+    import irwire
+    reqs = []
+    for n in names:
+        sub = {"name": None, "type": "static", "doc": ir.get("doc"), "params": {}, "returns": None}
+        if n == "return_type":
+            sub["returns"] = {"return_type": _entry(ir, n)}
+        else:
+            sub["params"] = {n: ir["params"][n]}
+        reqs.append(dumps([Sym("c02_class"), opts["emit_default_doc"], opts["word_wrap"], irwire.enc_ir(fam_parseast._od(sub))]))
+    out = []
+    for r in run_model(reqs):
+        ce = loads(r)
+        out.append(ce if isinstance(ce, str) else unhx(ce[1]))
+    return out
+
+
+def undescribed_number_defaults(ir, opts, out):
+    """[(entry, expected, got)] for the entries of number_mismatch_entries(ir) that fall, on their own, in the class that
+    describes them and whose default did not come back as that class describes (value and Python type)"""
+    names = number_mismatch_entries(ir)
+    if out is None or not names:
+        return []
+    bad = []
+    for n, own in zip(names, _own_class(ir, opts, names)):
+        if MISMATCH_CLASSES.get(own) != ("return" if n == "return_type" else "param"):
+            continue
+        q, w = _entry(ir, n), _entry(out, n)
+        if w is None:
+            continue
+        exp = number_default_expected(q)
+        if "default" not in w or not fam_parseast._same_val(exp, w["default"]):
+            bad.append((n, exp, w.get("default", "<absent>")))
+    return bad
+
+
+def _tighten_mismatch(failures):
+    """failures reported under default-type-mismatch / return-default-not-code keep that class only when the number
+    defaults the class is about came back as the class describes"""
+    hist = {}
+    for f in failures:
+        c = f.get("case")
+        if f.get("class") not in MISMATCH_CLASSES or not isinstance(c, dict) or c.get("kind") != "class" or "ir" not in c:
+            continue
+        if not number_mismatch_entries(c["ir"]):
+            continue
+        _, _, out = fam_parseast.round_trip("class", c["ir"], c["opts"])
+        bad = undescribed_number_defaults(c["ir"], c["opts"], out)
+        key = "mismatch-attribution:described"
+        if bad:
+            f["what"] += " [not what the recorded class %s describes: %s]" % (
+                f["class"], "; ".join("%s default expected back as %r, came back as %r" % b for b in bad))
+            f["class"] = None
+            key = "mismatch-attribution:not-described"
+        hist[key] = hist.get(key, 0) + 1
+    return hist
+
+
+def _gen_number_mismatch(rng):
+    """an (ir, opts, tags) point with one entry (a parameter, sometimes the return entry) typed int / float / bool whose
+    explicit default is a number of another Python type - mostly non-zero (`lr: float = 1`, `verbose: int = True`,
+    `steps: int = 2.0`, `shuffle: bool = 1`), sometimes falsy - next to 0..2 parameters of the proved shape"""
+    from collections import OrderedDict
+    import gen_text as G
+    items, used = [], set()
+    for _ in range(rng.choice([0, 0, 1, 2])):
+        n = G.ident(rng)
+        while n in used:
+            n = G.ident(rng)
+        used.add(n)
+        typ = rng.choice(["int", "float", "str", "bool", "Optional[int]", "Optional[str]"])
+        v = {"int": rng.choice([5, 1, -3, 100]), "float": rng.choice([0.5, 2.5, -1.25]), "bool": True,
+             "str": rng.choice(["mnist", "adam", "relu", "x"])}[typ.replace("Optional[", "").rstrip("]")]
+        items.append((n, {"doc": G.clean_prose(rng), "typ": typ, "default": v}))
+    typ = rng.choice(["float", "float", "int", "int", "bool"])
+    other = {"float": [1, -2, 10, 3, 12345678901234, True, True],
+             "int": [True, True, 1.0, 2.0, -3.0, 2.5, 1e+20, 100.0],
+             "bool": [1, 1, 2, -1, 1.0, 0.5]}[typ]
+    falsy = {"float": [0, False], "int": [False, 0.0], "bool": [0, 0.0]}[typ]
+    v = rng.choice(falsy) if rng.random() < 0.15 else rng.choice(other)
+    p = {"doc": G.clean_prose(rng), "typ": typ, "default": v}
+    ret = None
+    if rng.random() < 0.2:
+        ret = OrderedDict((("return_type", p),))
+        where = "return"
+        if not items:
+            items.append((G.ident(rng), {"doc": G.clean_prose(rng), "typ": "int", "default": 5}))
+    else:
+        name = G.ident(rng)
+        while name in used:
+            name = G.ident(rng)
+        items.insert(rng.randint(0, len(items)), (name, p))
+        where = "param"
+    ir = {"name": None, "type": "static", "doc": G.clean_prose(rng, max_words=6), "params": OrderedDict(items), "returns": ret}
+    tags = ["%s:%s-under-%s:%s" % (where, type(v).__name__, typ, "falsy" if not v else "nonzero")]
+    return ir, {"emit_default_doc": rng.random() < 0.4, "word_wrap": rng.random() < 0.5}, tags
+
+
+def _number_mismatch_oracle(rng, n):
+    """stratum: the shapes of _gen_number_mismatch through the real round trip; whatever class the point falls in, the
+    number default must come back as the recorded class describes (falsy: the zero value of the declared type; otherwise
+    the same value with the same Python type)"""
+    import collections
+    F = fam_parseast
+    pts = [_gen_number_mismatch(rng) for _ in range(n)]
+    infos = _refined([(ir, o) for ir, o, _ in pts])
+    hist, failures = collections.Counter(), []
+    n_eval = 0
+    for (ir, o, tags), info in zip(pts, infos):
+        cls = info[0]
+        if cls == "out-of-domain":
+            hist["number-mismatch:out-of-domain"] += 1
+            continue
+        case = {"kind": "class", "ir": ir, "opts": o}
+        ok, what, out = F.round_trip("class", ir, o)
+        n_eval += 1
+        if cls == "unmodelled":
+            continue
+        if not ok:
+            cls, note = _classify_failure(case, out, info)
+            if cls in MISMATCH_CLASSES:
+                bad = undescribed_number_defaults(ir, o, out)
+                if bad:
+                    note += " [not what the recorded class %s describes: %s]" % (
+                        cls, "; ".join("%s default expected back as %r, came back as %r" % b for b in bad))
+                    cls = None
+            failures.append({"case": case, "what": what + note, "class": cls})
+        hist["number-mismatch:%s:%s:%s" % (tags[0], "holds" if ok else "fails", cls or "in-guard")] += 1
+    hist["number-mismatch:points"] = n_eval
+    return dict(hist), failures
+
+
 def _reclassify(failures):
     """failures of the main stream that finding_class_C02 does not name: ask the refined classifier"""
     idx = [k for k, f in enumerate(failures) if f.get("class") is None and isinstance(f.get("case"), dict)
@@ -236,6 +400,15 @@ def oracle(rng, tier):
     res["rule"] += (" | stratum of the shapes proofs found inside the first classifier's no-finding region (float default -0.0; prose "
                     "with a form feed / vertical tab / CR / FS / GS / RS inside), classified by finding_class_C02_r; a new class "
                     "stands only for the difference it describes")
+    res["histogram"].update(_tighten_mismatch(res["failures"]))
+    hist, failures = _number_mismatch_oracle(rng, 400 if tier == "quick" else 4000)
+    res["histogram"].update(hist)
+    res["failures"] += failures
+    res["evaluations"] += hist.get("number-mismatch:points", 0)
+    res["rule"] += (" | stratum of number defaults under another bare number type (int under float, bool under int, float under "
+                    "int / bool, mostly non-zero; parameter or return entry); the classes default-type-mismatch / "
+                    "return-default-not-code absorb for such an entry only what they describe (a falsy default comes back as the "
+                    "zero value of the declared type, any other default as it is)")
     return res
 
 
